@@ -739,7 +739,7 @@ def _delegation_chain(ctx: Ctx, r: RuleResult):
     fi = ed.resolve('type_check_references')
     se = Sym('self', 'HplEventDisjunction')
     outs = ctx.ev.run(fi, {'self': se, fi.params()[1]: mt}, self_cls=ed)
-    recvs = {call_recv(cl).name for o in outs for cl in method_calls(list(o.effects), 'type_check_references') if isinstance(call_recv(cl), Attr) and cl.args == (mt,)}
+    recvs = {call_recv(cl).name for o in outs for cl in method_calls(list(o.effects) + list(o.trace), 'type_check_references') if isinstance(call_recv(cl), Attr) and cl.args == (mt,)}
     (r.ok('HplEventDisjunction: both alternatives') if recvs == {'event1', 'event2'} else r.fail('HplEventDisjunction.type_check_references', f'checks {sorted(recvs)} instead of event1 and event2', fi.where))
     # predicate level
     pe = m.cls('HplPredicateExpression', 'S5')
